@@ -66,7 +66,11 @@ func c14B1t6(c *Ctx) {
 		okE := plainEdges(edgesMatching(b, "ext#1("+grp+")"))
 		badE := plainEdges(edgesMatching(b, "un<!>(ext#1("+grp+"))"))
 		for _, ce := range edgesMatching(b, "ext#1("+grp+")") {
-			groupFns = append(groupFns, calleeOf(ce.Lit.Arg(0)))
+			lit := expandAll(c, ce.Lit) // look through a per-variant wrapper to the shared group routine
+			for lit.Op == "un" {
+				lit = lit.Arg(0)
+			}
+			groupFns = append(groupFns, calleeOf(lit.Arg(0)))
 		}
 		r.Check(len(okE) == 1 && len(badE) == 1, key+".group-read", c.P.Pos(fn.Pos()), "each iteration decodes the two tryte values at j and j+%d through the shared group routine", v.g/2)
 		// value-set analysis over the length for the final exits
